@@ -71,6 +71,7 @@ theorem table_compat : Compat T where
   rp0 := by decide
   rb0 := by decide
   comma0 := by decide
+  atom0 := fun a => by cases a <;> simp only [Atom.kind] <;> decide
   lpHigh := fun o => (table_open_high o (BinOp.mem_all o)).1
   lbHigh := fun o => (table_open_high o (BinOp.mem_all o)).2
   nudNum := by decide
@@ -107,6 +108,18 @@ theorem pratt_print_redundant (e : Expr) (ks : List TK) (hp : Prints e .top .non
     Impl.parse T (program ts eofLine) = .ok e :=
   parse_prints table_compat (by decide) hp ts eofLine h
 
+/-- C03 (comma-less lists, forward direction): a list literal whose elements are literals or
+    identifiers written WITHOUT commas (`[1 2]`, `[a "x" true null]`) parses — on whatever lines
+    its tokens stand — to the list of these elements. More generally `Spec.PrintsItems.juxt` admits
+    a missing comma before every element that starts with a literal or an identifier, and
+    `pratt_print_redundant` / `parse_then_eval` / `prints_unambiguous` hold for all such writings.
+    (Before `(`, `[`, `not` the parser accepts a missing comma only after a line end; before
+    `-`/`+` it reads one element: those are not admitted, see `parse_sound` for the converse.) -/
+theorem commaless_atom_list_parses (as : List Atom) (ts : List LTok) (eofLine : Nat)
+    (h : ts.map (·.tk) = .lb :: (as.map TK.atom ++ [.rb])) :
+    Impl.parse T (program ts eofLine) = .ok (.list (atomItems as)) :=
+  pratt_print_redundant _ _ (Prints.list (atomItems_prints as)) ts eofLine h
+
 /- Full statement (not provable in this file, which starts from tokens):
      for source texts s1 s2 that differ only in blanks / tabs / newlines between tokens and are one
      statement each, `Impl.parse (lex s1) = Impl.parse (lex s2)`.
@@ -125,6 +138,53 @@ theorem layout_irrelevant_partial (e : Expr) (ks : List TK) (hp : Prints e .top 
     executable parser suffices; fuel is only a device for structural recursion. -/
 theorem parse_fuel_suffices (ts : List LTok) : Impl.parse T ts ≠ .error .fuel :=
   parse_never_out_of_fuel T ts
+
+/-- C03 (the driver runs the function the theorems are about): the driver parses with
+    `Impl.parseProgram` (programs of several expression statements); on every token list for which
+    `Impl.parse` returns a tree it returns exactly that one statement, and whenever it returns a
+    single statement `Impl.parse` returns it — so `pratt_print`, `parse_sound`, … speak about what the
+    correspondence run compares. -/
+theorem parseProgram_single (ts : List LTok) (e : Expr) (n : Nat) :
+    Impl.parse T ts = .ok e ↔ Impl.parseProgram T (n + 1) ts = .ok [e] := by
+  simp only [Impl.parse, Impl.parseFuel, Impl.parseProgram]
+  cases hr : Impl.run T (2 * ts.length + 4) 0 ts with
+  | error x => simp
+  | ok res =>
+    obtain ⟨e', ln, rest⟩ := res
+    cases rest with
+    | nil => simp
+    | cons t rest' =>
+      simp only
+      by_cases heof : t.tk = .eof
+      · simp [heof]
+      · simp only [heof, if_false]
+        by_cases hl : ln < t.line
+        · simp only [hl, if_true]
+          constructor
+          · intro h; cases h
+          · intro h
+            cases hp : Impl.parseProgram T n (t :: rest') with
+            | error x => rw [hp] at h; cases h
+            | ok es =>
+              rw [hp] at h
+              simp only [Except.ok.injEq, List.cons.injEq] at h
+              obtain ⟨_, rfl⟩ := h
+              -- a further statement was parsed: impossible, `parseProgram` never returns the empty list
+              exfalso
+              cases n with
+              | zero => simp [Impl.parseProgram] at hp
+              | succ m =>
+                simp only [Impl.parseProgram] at hp
+                split at hp
+                · split at hp
+                  · cases hp
+                  · split at hp
+                    · cases hp
+                    · split at hp
+                      · split at hp <;> cases hp
+                      · cases hp
+                · cases hp
+        · simp [hl]
 
 /-- C03 (converse — the parser accepts nothing but the documented grammar): whenever the parser
     with the real table returns a tree for a token list (on whatever lines), the tokens before
@@ -213,6 +273,14 @@ example : pr (.bin .plus tPlus (.atom n1) (.bin .times tTimes (.atom n2) (.atom 
 example : Impl.parse T (program (line1 [.atom n1, .op .plus tPlus, .atom n2, .op .times tTimes, .atom n3]) 1)
     = .ok (.bin .plus tPlus (.atom n1) (.bin .times tTimes (.atom n2) (.atom n3))) := by rfl
 
+/-- non-vacuity of `parseProgram_single`: `1 + 2 * 3` is one statement for both -/
+example : Impl.parseProgram T 7 (program (line1 [.atom n1, .op .plus tPlus, .atom n2, .op .times tTimes, .atom n3]) 1)
+    = .ok [.bin .plus tPlus (.atom n1) (.bin .times tTimes (.atom n2) (.atom n3))] := by rfl
+
+/-- non-vacuity of `commaless_atom_list_parses`: `[1 2 3]` with the tokens on three different lines -/
+example : Impl.parse T (program [⟨.lb, 1⟩, ⟨.atom n1, 1⟩, ⟨.atom n2, 2⟩, ⟨.atom n3, 3⟩, ⟨.rb, 3⟩] 4)
+    = .ok (.list (atomItems [n1, n2, n3])) := commaless_atom_list_parses [n1, n2, n3] _ 4 rfl
+
 /-- `(1 + 2) * 3` needs its brackets; `1 - (2 - 3)` too (left associativity) -/
 example : pr (.bin .times tTimes (.bin .plus tPlus (.atom n1) (.atom n2)) (.atom n3)) .top .none
     = [.lp, .atom n1, .op .plus tPlus, .atom n2, .rp, .op .times tTimes, .atom n3] := by decide
@@ -295,16 +363,79 @@ theorem impl_error_admissible (e : Expr) (hm : Spec.modInRange G e = true) (k : 
     obtain ⟨rfl, rfl, rfl⟩ := h
     exact (spec_err_mem G e _ _ _ hs).2
 
-/- Full statement (not proved; one induction away): `Spec.eval G e = .val v → Spec.errSet G e = []`. -/
-/-- … one level of it: an operator on operands without admissible errors whose meaning is a value has
-    no admissible error — the set does not bless errors where there should be a value -/
-theorem value_has_no_admissible_error_partial (o : BinOp) (t : Str) (l r : Expr) (v1 v2 v : Val N)
+/-- one level: an operator on operands without admissible errors whose meaning is a value has no
+    admissible error -/
+theorem errSet_bin_value (o : BinOp) (t : Str) (l r : Expr) (v1 v2 v : Val N)
     (h1 : Spec.eval G l = .val v1) (h2 : Spec.eval G r = .val v2) (hl : Spec.errSet G l = []) (hr : Spec.errSet G r = [])
     (hv : Spec.binSem G o (opName l) (opName r) v1 v2 = .val v) : Spec.errSet G (.bin o t l r) = [] := by
   simp only [Spec.errSet, hl, hr, h1, h2, List.nil_append]
   cases o <;> cases v1 <;> cases v2 <;>
     simp_all [Spec.binSem, Spec.arith, Spec.logic, Spec.member, Spec.compare, ownLeft, ownRight, ownBoth] <;>
     (try (split at hv)) <;> (try (split at hv)) <;> (try split) <;> (try split) <;> simp_all
+
+mutual
+/-- C03 (the admissible set blesses no error where there must be a value): for EVERY tree whose
+    reference evaluation yields a value the set of admissible errors is empty — so with
+    `SPEC["equal"]` accepting any member of `Spec.errSet`, an error is never accepted for an
+    expression that has a value (and, by `impl_error_admissible`, never rejected when it is about an
+    offending operand). -/
+theorem value_has_no_admissible_error : ∀ (e : Expr) (v : Val N), Spec.eval G e = .val v → Spec.errSet G e = []
+  | .atom a, _, _ => by simp [Spec.errSet]
+  | .list its, v, h => by
+    simp only [Spec.eval] at h
+    simp only [Spec.errSet]
+    cases hi : Spec.evalItems G its with
+    | ok vs => exact items_have_no_admissible_error its vs hi
+    | error x => obtain ⟨k, s, p⟩ := x; rw [hi] at h; cases h
+  | .bin o t l r, v, h => by
+    simp only [Spec.eval] at h
+    cases hl : Spec.eval G l with
+    | err k s p => rw [hl] at h; cases h
+    | val v1 =>
+      rw [hl] at h
+      cases hr : Spec.eval G r with
+      | err k s p => rw [hr] at h; cases h
+      | val v2 =>
+        rw [hr] at h
+        exact errSet_bin_value G o t l r v1 v2 v hl hr (value_has_no_admissible_error l v1 hl)
+          (value_has_no_admissible_error r v2 hr) h
+  | .pre q t x, v, h => by
+    simp only [Spec.eval] at h
+    simp only [Spec.errSet]
+    cases hx : Spec.eval G x with
+    | err k s p => rw [hx] at h; cases h
+    | val vx =>
+      rw [hx] at h
+      simp [value_has_no_admissible_error x vx hx, h]
+theorem items_have_no_admissible_error : ∀ (its : Items) (vs : Vals N), Spec.evalItems G its = .ok vs →
+    Spec.errSetItems G its = []
+  | .nil, _, _ => by simp [Spec.errSetItems]
+  | .cons e rest, vs, h => by
+    simp only [Spec.evalItems] at h
+    simp only [Spec.errSetItems]
+    cases he : Spec.eval G e with
+    | err k s p => rw [he] at h; cases h
+    | val v =>
+      rw [he] at h
+      cases hr : Spec.evalItems G rest with
+      | error x => rw [hr] at h; cases h
+      | ok vs' =>
+        simp [value_has_no_admissible_error e v he, items_have_no_admissible_error rest vs' hr]
+end
+
+/-- C03 (exactly the failing trees have admissible errors): the admissible set is empty if and
+    only if the reference evaluation yields a value. -/
+theorem errSet_empty_iff_value (e : Expr) : Spec.errSet G e = [] ↔ ∃ v, Spec.eval G e = .val v := by
+  constructor
+  · intro h
+    cases hs : Spec.eval G e with
+    | val v => exact ⟨v, rfl⟩
+    | err k s p =>
+      have := (spec_err_mem G e k s p hs).1
+      rw [h] at this
+      cases this
+  · rintro ⟨v, hv⟩
+    exact value_has_no_admissible_error G e v hv
 
 def BinOp.arith : BinOp → Bool
   | .plus | .minus | .times | .div | .divint | .modint => true
@@ -634,13 +765,57 @@ theorem lexed_source_closes (num : List (Str × Nat)) (src : List Nat) (ts : Lis
     simp [tkOfLex, hid, Ecal.Lex.tERROR, Ecal.Lex.tEOF, Ecal.Lex.tSTRING, Ecal.Lex.tIDENTIFIER, Ecal.Lex.tNUMBER] at hk
     exact hk.symm
 
+/-- C03 (number literals, lexer level): for EVERY input, every NUMBER token of the lexer model the
+    driver runs carries a text that passed the number test of `lexToken`: it starts with a digit
+    `0`–`9`, contains no line end, and `strconv.ParseFloat` (model: `validFloat`) accepts it. So
+    whatever the splitting of `lexNumberBlock` does (`1e5` → `1`, `e5`; `1.2.3` → error), a NUMBER
+    token never carries a text that is not a number — in particular never `1e`, `1.2.3`, `1e+999`. -/
+theorem number_tokens_are_numbers (input : List Nat) :
+    ∀ t ∈ (Ecal.Lex.lex input).toList, t.id = Ecal.Lex.tNUMBER →
+      (∃ c rest, t.val = c :: rest ∧ 48 ≤ c ∧ c ≤ 57) ∧ t.val.contains 10 = false ∧ Ecal.Lex.validFloat t.val = true := by
+  intro t ht hid
+  have h := Ecal.Lex.number_tokens_pass_number_test input t ht hid
+  simp only [Ecal.Lex.numberCandidate, Bool.and_eq_true, Bool.not_eq_true'] at h
+  obtain ⟨⟨h1, h2⟩, h3⟩ := h
+  refine ⟨?_, h2, h3⟩
+  cases hv : t.val with
+  | nil => rw [hv] at h1; simp at h1
+  | cons c rest =>
+    rw [hv] at h1
+    simp only [Bool.and_eq_true, decide_eq_true_eq] at h1
+    exact ⟨c, rest, rfl, h1.1, h1.2⟩
+
+/-- C03 (number literals, what the parser gets): every number atom in the token list the driver
+    hands to `Impl.parseProgram` is such a text (with the float bits supplied for exactly that text);
+    comments are dropped, nothing else is added. -/
+theorem parser_number_atoms_are_numbers (num : List (Str × Nat)) (src : List Nat) (ts : List LTok)
+    (h : lexTokens num src = some ts) (txt : Str) (bits line : Nat) (hm : LTok.mk (.atom (.num txt bits)) line ∈ ts) :
+    Ecal.Lex.numberCandidate txt = true := by
+  obtain ⟨t, ht, hc⟩ := convAll_mem num _ ts h _ hm
+  simp only [convTok, Option.map_eq_some_iff] at hc
+  obtain ⟨k, hk, hk'⟩ := hc
+  simp only [LTok.mk.injEq] at hk'
+  obtain ⟨rfl, _⟩ := hk'
+  obtain ⟨hid, rfl⟩ := tkOfLex_num num t txt bits hk
+  have hmem : t ∈ (Ecal.Lex.lex src).toList := (List.mem_filter.1 ht).1
+  exact Ecal.Lex.number_tokens_pass_number_test src t hmem hid
+
+/-- non-vacuity: `1e5 + 1.5` has two NUMBER tokens (`1`, `1.5`); the number test rejects `1.2.3`,
+    `1e+999`, `1e`, `e5` and an empty text -/
+example : ((Ecal.Lex.lex (Ecal.Lex.str "1e5 + 1.5")).toList.filter (·.id = Ecal.Lex.tNUMBER)).map (·.val)
+    = [[49], [49, 46, 53]] := by decide +kernel
+example : Ecal.Lex.numberCandidate (Ecal.Lex.str "1.2.3") = false ∧ Ecal.Lex.numberCandidate (Ecal.Lex.str "1e+999") = false ∧
+    Ecal.Lex.numberCandidate (Ecal.Lex.str "1e") = false ∧ Ecal.Lex.numberCandidate (Ecal.Lex.str "e5") = false ∧
+    Ecal.Lex.numberCandidate [] = false ∧ Ecal.Lex.numberCandidate (Ecal.Lex.str "1.5") = true := by decide +kernel
+
 /-- kinds and texts of the tokens of a source (for the instances below) -/
 def lexKinds (src : String) : List (Nat × List Nat) :=
   (Ecal.Lex.lex (Ecal.Lex.str src)).toList.map fun t => (t.id, t.val)
 
-/-! ### number-literal splitting: instances (tests of the lexer model the driver runs; the general
-    statement — a NUMBER token's text starts with a digit and is accepted by ParseFloat, `e` belongs
-    to it only before `+digit` — needs C18's per-token invariant extended and is not proved) -/
+/-! ### number-literal splitting: instances (tests of the lexer model the driver runs). Proved in
+    general above: a NUMBER token's text starts with a digit and is accepted by ParseFloat. NOT proved
+    in general: where `lexNumberBlock` ends the block (`e` belongs to it only before `+digit`) — that
+    needs an invariant of its loop over the consumed runes -/
 
 /-- `1 -2` : number, minus, number -/
 example : lexKinds "1 -2" = [(6, [49]), (34, [45]), (6, [50]), (1, [])] := by decide +kernel
@@ -685,6 +860,12 @@ def isErr {N : Type} (k : ErrKind) (name : Str) : Out N → Bool
 def isBoolVal {N : Type} (b : Bool) : Out N → Bool
   | .val (.bool b') => b = b'
   | _ => false
+
+/-- non-vacuity of `value_has_no_admissible_error` / `errSet_empty_iff_value`: `1 + 2` has a value and
+    no admissible error; `"a" + true` has two admissible errors (one per offending operand) -/
+example : Spec.errSet toy (.bin .plus [43] (.atom (.num [49] 1)) (.atom (.num [50] 2))) = [] := by decide
+example : Spec.errSet toy (.bin .plus [43] (.atom (.str [97])) (.atom (.tru [116]))) =
+    [(.notANumber, [97], some 0), (.notANumber, [116], some 1)] := by decide
 
 /-- `"a" + 1` : NotANumber naming `a` (hypotheses of `wrong_kind_left_arith` are satisfiable) -/
 example : isErr .notANumber [97] (Impl.eval toy (.bin .plus [43] (.atom (.str [97])) (.atom (.num [49] 1)))) = true := by
